@@ -21,6 +21,11 @@ CHECKS = {
         technique='Hypothesis-generated suggest/complete/request/delete histories with drawn delivery profiles vs three-source-fill reference model',
         text='Histories of suggest (raw RPC and clients.Study path, 1-4 workers, n 1..5), complete, request, add-completed, delete and stop against a real servicer (RAM and SQL) whose harness policy over-/under-/exactly delivers per a drawn profile; every suggest is compared with the reference model (count, ACTIVE + client_id, operation name, snapshot) and with model-free clauses: stickiness on repeat (same trials, nothing created, policy not invoked), no trial active for two workers, surplus conserved as REQUESTED, fresh increasing ids. Sampling of histories.',
         note='trusts harness/service_model.py; which REQUESTED trial is handed out and which suggestion lands on which new id is adopted from the implementation after validating it is an allowed choice'),
+    'C04': dict(
+        category=EXPL,
+        technique='harness-owned cooperative scheduler: enumerated <=2-pre-emption schedules + Hypothesis random schedules; serial-order differential oracle up to trial-id bijection',
+        text='2-3 concurrent RPCs (11 kinds) after generated sequential prefixes run as threads under a deterministic scheduler whose scheduling points are every datastore call and every service-lock acquire/release; per (prefix, call set) all schedules with at most two pre-emptions (capped) plus drawn random schedules are executed on RAM and SQL. Each outcome (result class per call, trials handed out by suggest/add-trial, final studies/trials/operations) must equal that of one of the k! serial orders up to a renumbering of the trials created during the run; plus deadlock/livelock detection, unique ids, every operation done. Violations in 3-call sets are attributed to a pair when the pair alone reproduces the clause.',
+        note='granularity = datastore calls and service locks (each datastore call is atomic under its own lock); pre-emption bound 2 + random schedules, not all schedules; a defect present in all serial orders is invisible; DeleteStudy racing calls on the same study is a listed known finding and excluded by construction from generated call sets (pinned replays still execute it)'),
     'C06': dict(
         category='fault_enumeration',
         technique='Hypothesis-generated fault plans (exception type x position x delivery count) x follow-up histories; bounded-liveness oracle',
